@@ -36,7 +36,7 @@ pub const HTML_FRAGS: &[&str] = &[
 pub const FOREIGN_FRAGS: &[&str] = &[
     "<svg>", "</svg>", "<math>", "</math>", "<svg/>", "<SVG>", "<svg viewBox='0 0 1 1'>", "<g>", "</g>", "<path d=x/>", "<circle/>", "<foreignObject>", "</foreignObject>", "<foreignobject>", "<desc>", "</desc>",
     "<mi>", "</mi>", "<mo>", "</mo>", "<mn>", "<ms>", "<mtext>", "</mtext>", "<annotation-xml encoding=text/html>", "<annotation-xml encoding='application/xhtml+xml'>", "<annotation-xml>", "</annotation-xml>", "<mglyph>", "<malignmark>",
-    "<font>", "<font color=a>", "<font size=1>", "</font>", "<![CDATA[ <b> ]]>", "<![CDATA[", "]]>", "<title>", "</title>", "<style>", "</style>", "<script>", "</script>",
+    "<font>", "<font color=a>", "<font size=1>", "</font>", "<![CDATA[ <b> ]]>", "<![CDATA[", "]]>", "]]]>", "<![CDATA[a[0]]]>", "]]]]>", "]", "<title>", "</title>", "<style>", "</style>", "<script>", "</script>",
 ];
 
 pub struct SoupOpts {
